@@ -9,7 +9,9 @@ THEOREMS = {'C01': ['Cctz.C01.breakTime_table', 'Cctz.C01.breakTime_shift', 'Cct
                     'Cctz.C01Rule.tables', 'Cctz.C01Rule.transOffset', 'Cctz.C01Rule.ruleDay_periodic', 'Cctz.C01Rule.ruleInstant_periodic',
                     'Cctz.C01Rule.extendLoop_state', 'Cctz.C01Rule.extendLoop_trans',
                     'Cctz.C01Decode.decode', 'Cctz.C01Decode.load_decodes', 'Cctz.C01Decode.isTzif_unique', 'Cctz.C01Decode.load_content',
-                    'Cctz.C01Decode.load_rejects', 'Cctz.C01Decode.load_accepts'],
+                    'Cctz.C01Decode.load_rejects', 'Cctz.C01Decode.load_accepts',
+                    'Cctz.C01Glue.lookup_follows_rule', 'Cctz.C01Glue.regular_of_civilYear', 'Cctz.C01Glue.regular_needed',
+                    'Cctz.C01Glue.first_wording_false', 'Cctz.C01Glue.extendedBy_degenerate'],
             'C02': ['Cctz.C02.farApart_separated', 'Cctz.C02.makeTime', 'Cctz.C02.shift', 'Cctz.C02.makeTime_needs_TimesInRange', 'Cctz.C02.shift_needs_after_last'],
             'C03': ['Cctz.C03.roundtrip', 'Cctz.C03.converse'],
             'C06': ['Cctz.C06.convert_monotone', 'Cctz.C06.convert_def', 'Cctz.C06.convert_monotone_needs_TimesInRange', 'Cctz.C06.convert_monotone_needs_FirstEntryRoom'],
@@ -134,12 +136,12 @@ def expected_bt(zone, t):
 # ------------------------------------------------------------------------------------ C01
 
 def run_C01(chk):
-    chk.prepare_model(['Cctz.Properties.C01', 'Cctz.Properties.C01Rule', 'Cctz.Properties.C01Decode'], THEOREMS['C01'])
+    chk.prepare_model(['Cctz.Properties.C01', 'Cctz.Properties.C01Rule', 'Cctz.Properties.C01Decode', 'Cctz.Properties.C01Glue'], THEOREMS['C01'])
     exe = chk.harness('san')
     scale = chk.tier if not chk.broken else 'thorough'
     if exe is None or not getattr(chk, 'driver_ok', False):
         return chk.finish()
-    zones = pick_corpus(chk, scale) + Z.untame_zones()
+    zones = pick_corpus(chk, scale) + Z.untame_zones() + Z.irregular_zones()
     blocks = []; meta = []
     for i, zn in enumerate(zones):
         ts = Z.probe_instants(zn, chk.rng, per_transition=3 if scale == 'quick' else 8, n_random=60 if scale == 'quick' else 400)
@@ -490,7 +492,7 @@ def run_C10(chk):
     for i, zn in enumerate(zones):
         ts = extreme_instants(chk.rng, n)
         if zn.kind == 'untame': ts = sorted(set(ts + Z.probe_instants(zn, chk.rng, n_random=30)))
-        cs = extreme_civils(chk.rng, n // 3)
+        cs = sorted(set(extreme_civils(chk.rng, n // 3) + Z.last_year_civils(zn)))
         b = [load_line(i, zn)]
         for t in ts: b += ['bt %s %d' % (zid(i), t), 'nt %s %d' % (zid(i), t), 'pt %s %d' % (zid(i), t)]
         for c in cs: b += ['mt %s %s' % (zid(i), C.fmt(c)), 'cv %s %s' % (zid(i), C.fmt(c))]
@@ -529,12 +531,21 @@ def run_C10(chk):
                     beyond = C.civil_of_sec(C.sec_num(r[0]) + (1 if int(p[2]) == I64MAX else -1))
                     if C.in64(beyond[0]):
                         b2.append('cv %s %s' % (p[1], C.fmt(beyond))); m2.append(('beyond', int(p[2]), beyond))
-        blocks2.append(b2); meta2.append((name, untame, m2))
+        blocks2.append(b2); meta2.append((name, untame, m2, zn))
     mo2, io2 = run_blocks(chk, exe, blocks2, 'saturation')
     note_mismatches(chk, blocks2, mo2, io2, 'saturation')
-    for (name, untame, m2), out in zip(meta2, io2):
+    def shows(zn, o, cs):
+        # inside an overlap that straddles the limit the civil second is also shown by an earlier (later)
+        # representable instant, and convert() rightly returns that one
+        try:
+            r = int(o)
+            off = zn.offset_at(r)[0] if hasattr(zn, 'offset_at') else zn
+            return I64MIN <= r <= I64MAX and r + off == C.sec_num(cs)
+        except Exception:
+            return False
+    for (name, untame, m2, zn), out in zip(meta2, io2):
         for (kind, lim, cs), o in zip(m2, out[1:]):
-            if o != str(lim):
+            if o != str(lim) and not shows(zn, o, cs):
                 what = ('the civil second shown at %s does not convert back to it' if kind == 'exact' else 'a civil second beyond the one shown at %s does not saturate to it') % ('max()' if lim == I64MAX else 'min()')
                 chk.report('%s: %s: convert(%s) = %s' % (name, what, C.fmt(cs), o), {'zone': name, 'op': 'cv ' + C.fmt(cs), 'implementation': o, 'expected': lim},
                            sig='%ssaturation %s %s' % ('untame ' if untame else '', kind, site_sig(o)))
@@ -561,6 +572,9 @@ def run_C14(chk):
         return chk.finish()
     rng = chk.rng
     zones = Z.corpus(rng, n_real=20 if scale == 'quick' else 120)
+    # files that Load() rejects because their civil-time index would not be ordered: as long as they are
+    # rejected every copy answers like UTC; a tree that accepts them answers by hint
+    zones += Z.rejected_zones()
     blocks = []; meta = []
     for i, zn in enumerate(zones):
         if not zn.z.times: continue
@@ -617,15 +631,19 @@ def run_C14(chk):
                                {'zone': zn.name, 'tzif_hex': Z.hx(zn.data), 'op': l, 'with_history': o, 'fresh': ref.get(q)}, sig='%s history' % zn.name)
                 else: good += 1
             elif kind == 'reload':
-                if o != 'ok equal=1 factory=0':
+                if o != ('ok equal=1 factory=0' if out[0].startswith('ok') else 'fail utc=1 factory=0'):
                     chk.report('%s: loading the same name again: %s (expected an equal zone and no access to the data source)' % (zn.name, o), {'zone': zn.name, 'op': l, 'implementation': o}, sig='reload')
                 else: good += 1
+    # "loading a name again returns a time_zone equal to the first one without consulting the data source
+    # again" also when the first loads raced: the schedules of C13, judged by the re-load that follows each
+    from .props_loader import run_sched_part
+    good += run_sched_part(chk, 'C14', exe, 'quick')
     chk.cov['distinct_nontrivial'] = good
     chk.cov['zones'] = len(zones)
     chk.cov['rule'] = ('per zone two copies of the same bytes loaded under different names: on one, every reachable hidden state is set up (one lookup(t) and one lookup(civil) per table index, all indexes for small tables '
                        'and 24 sampled ones otherwise in quick) followed by a probe panel (lookups both ways, convert, next/prev_transition), then a long random call sequence; every answer must equal the '
                        'answer of the other copy, which only ever sees the panel once; loading a name again must give an equal zone with zero data-source accesses (counting factory), and names that failed keep '
-                       'failing with UTC; every op also compared with the model (whose hints are explicit state); non-trivial = probe answers that agreed')
+                       'failing with UTC; every op also compared with the model (whose hints are explicit state); after every start/release schedule of 2-3 racing first loads each name is loaded once more (equal zone, no data-source access); non-trivial = probe answers and schedules that agreed')
     chk.sample({'zone': zones[0].name, 'ops': blocks[0][2:6], 'implementation': io[0][2:6]})
     return chk.finish()
 
